@@ -313,6 +313,18 @@ def judge(ctx, text, case, full, sigs, mapname='?'):
         check_ack(ctx, text, res, case)
         check_reader_attribution(ctx, text, res, case)
         check_envelope_attribution(ctx, text, res, case)
+    # element-level findings that hang on a loop's own node (set / group / interchange) are about its header or trailer; one whose message names
+    # an element of a body segment was filed there for want of a segment node and will never be itemised as AK3/AK4
+    import re as _re
+    allowed = {'st': ('ST', 'SE'), 'gs': ('GS', 'GE'), 'isa': ('ISA', 'IEA', 'TA1')}
+    for er in (res.errors or []):
+        if er[0] == 'ele' and er[12] in allowed:
+            m_ = _re.search(r'\(([A-Z][A-Z0-9]{1,2})(\d\d)(-\d+)?\)', er[13] or '')
+            ctx.count('loop-node-element-findings-checked')
+            if m_ and m_.group(1) not in allowed[er[12]]:
+                ctx.viol('element-finding:filed-on-the-%s-node:names-a-body-segment' % er[12], 'an element-level finding about a body segment hangs on the node of the enclosing set / group / interchange', case,
+                         {'message': (er[13] or '')[:160], 'node': er[12]})
+                break
     for (seg_id, ep, sp, v) in case.get('expect_items', ()):
         # ground truth of a directed family: this too-long value was put at this element / component, so the tree and the acknowledgement
         # must both hold an element-level finding echoing it AT that position (the tree agreeing with the acknowledgement is not enough)
